@@ -45,6 +45,8 @@ def expr_text(ast) -> str:
         return repr(ast[1])
     if k == "par":
         return "(" + expr_text(ast[1]) + ")"
+    if k == "call":          # a Python builtin applied to sub-expressions: abs(..), max(.., ..), round(.., 2), int(..)
+        return ast[1] + "(" + ", ".join(expr_text(a) for a in ast[2]) + ")"
     def sub(x):
         t = expr_text(x)
         return "(" + t + ")" if x[0] in "+-*/" else t
@@ -64,6 +66,8 @@ def expr_eval(ast, env):
         return ast[1]
     if k == "par":
         return expr_eval(ast[1], env)
+    if k == "call":
+        return {"abs": abs, "max": max, "min": min, "round": round, "int": int, "float": float}[ast[1]](*[expr_eval(a, env) for a in ast[2]])
     a, b = expr_eval(ast[1], env), expr_eval(ast[2], env)
     return {"+": lambda: a + b, "-": lambda: a - b, "*": lambda: a * b, "/": lambda: a / b}[k]()
 
@@ -75,6 +79,8 @@ def expr_refs(ast):
         return []
     if ast[0] == "par":
         return expr_refs(ast[1])
+    if ast[0] == "call":
+        return [r for a in ast[2] for r in expr_refs(a)]
     return expr_refs(ast[1]) + expr_refs(ast[2])
 
 
@@ -143,10 +149,19 @@ def gen_graph(rng, ints=False):
                     return ("num", rng.choice([1, 2, 10, 0.5] if not ints else [1, 2, 10, 0]))
                 if q < 0.65:
                     return ("par", mk(depth + 1))
+                if q < 0.75 and not ints:
+                    f = rng.choice(["abs", "max", "min", "round", "int", "float"])
+                    if f in ("max", "min"):
+                        return ("call", f, [mk(depth + 1), mk(depth + 1)])
+                    if f == "round":
+                        return ("call", f, [mk(depth + 1), ("num", rng.choice([0, 1, 3]))])
+                    return ("call", f, [mk(depth + 1)])
                 op = rng.choice("+-*/" if not ints else "+-*")
                 rhs = mk(depth + 1)
                 return (op, mk(depth + 1), rhs, rng.choice(["", " "]))
             ast = mk()
+            if ast[0] == "call":
+                feats.add("builtin-call")
             if not expr_refs(ast) or ast[0] in ("ref", "par", "idx"):
                 ast = ("+", ("ref", rng.choice(numeric)), ast if ast[0] != "ref" else ("num", 1), " ")
             nodes.append(Node(nm, "expr", ast))
@@ -332,7 +347,7 @@ def _freeze(p):
 
 
 def _thaw(p):
-    if isinstance(p, list) and p and p[0] in ("ref", "num", "par", "+", "-", "*", "/") and not all(isinstance(x, (int, float)) for x in p):
+    if isinstance(p, list) and p and p[0] in ("ref", "num", "par", "call", "idx", "+", "-", "*", "/") and not all(isinstance(x, (int, float)) for x in p):
         return tuple(_thaw(x) if isinstance(x, list) else x for x in p)
     return p
 
